@@ -2397,7 +2397,12 @@ impl LineBuf {
 				if to == To::End {
 					match dir {
 						Direction::Forward => {
-							MotionKind::Onto(pos.get())
+							if verb.is_some() && pos.get() == self.cursor.get() {
+								// Nothing further to move to: an operator still takes the character under the cursor
+								MotionKind::Inclusive((pos.get(),pos.get()))
+							} else {
+								MotionKind::Onto(pos.get())
+							}
 						}
 						Direction::Backward => {
 							let (start,end) = ordered(self.cursor.get(),pos.get());
@@ -2465,7 +2470,8 @@ impl LineBuf {
 							}
 						}
 					}
-					TextObj::Word(_, bound) |
+					// text_obj_word() gives the first and the last character of the object
+					TextObj::Word(_, _) => MotionKind::Inclusive((start,end)),
 					TextObj::WholeSentence(bound) |
 					TextObj::WholeParagraph(bound) => {
 						match bound {
